@@ -5,7 +5,8 @@
      <size> <nthieves> | <owner ops> | <thief 1 ops> | ... | <schedule>          (lock-step run)
      seq <size> | <ops>                                                          (one participant at a time, see below)
      enum <size> <nthieves> | <owner ops> | <thief ops> ... | <prefix schedule>  (all maximal schedules after the prefix)
-   Ops: P<tag> push, O pop, U<tag> put, T take, W0/W1 wsapi take (decline/accept), S<tag> trypass, K peek. *)
+   Ops: P<tag> push, O pop, U<tag> put, T take, W0/W1 wsapi take (decline/accept), S<tag> trypass,
+   K peek (myth_queue_peek), Q wsapi peek (hint cache). *)
 open WsqModel
 open TsoModel
 module SL = Stdlib.List
@@ -29,7 +30,7 @@ let oop_of w = match SS.get w 0 with
   | 'P' -> Push (tag w) | 'O' -> Pop | 'U' -> Put (tag w)
   | _ -> failwith ("bad owner op " ^ w)
 let top_of w = match SS.get w 0 with
-  | 'T' -> Take | 'W' -> WTake (w = "W1") | 'S' -> Pass (tag w) | 'K' -> Peek
+  | 'T' -> Take | 'W' -> WTake (w = "W1") | 'S' -> Pass (tag w) | 'K' -> Peek | 'Q' -> WPeek
   | _ -> failwith ("bad thief op " ^ w)
 
 let lab s p =
